@@ -669,6 +669,9 @@ func init() {
 				}
 				rr := httptest.NewRecorder()
 				f.GW.Handler(rr, r)
+				if r.MultipartForm != nil {
+					r.MultipartForm.RemoveAll() // what net/http's server does after the handler has returned
+				}
 				sigs := c07Check(rr.Code, rr.Body.Bytes(), rq.Expect, rq.Kind == "batch", []byte(rq.Body))
 				if rq.Kind != "batch" && rq.Expect == 200 && rr.Code == 200 && strings.Contains(rq.Body, c07InvalidQ) && !strings.Contains(rq.Body, c07ValidQ) {
 					// invalid operation: errors and data null
